@@ -70,18 +70,28 @@ def make_world(native, behaviour='value', value=None, stack=(), inner_msg=None, 
             o.eval = lambda ctx: ast_eval(ctx)
             return o
         return Stub('ast', eval=ModelFn(lambda it_, ctx: ast_eval(ctx), 'ast.eval'))
-    fF = mk('formula(F1)', ast=astnode(), formula=formula_text, evaluate=True)
-    fG = mk('formula(G1)', ast=astnode(), formula='=F1*2', evaluate=True)
-    cF = mk('cell(F1)', formula=fF, value='STALE-F', need_update=True, address=F_ADDR)
-    cG = mk('cell(G1)', formula=fG, value='STALE-G', need_update=True, address=G_ADDR)
-    cK = mk('cell(K1)', formula=None, value=value if behaviour == 'constant' else 41, need_update=False, address=K_ADDR)
+    def formula(text):
+        if is_sym(text):
+            return mk('formula', ast=astnode(), formula=text, evaluate=True, terms=[], tokens=[], sheet_name='Sheet1')      # symbolic text (C06 message bound)
+        f = xltypes.XLFormula(text, 'Sheet1')             # a REAL formula object; its compiled tree is the opaque collaborator
+        f.ast = astnode()
+        return f
+
+    def cell(addr, f, value, need):
+        c = xltypes.XLCell(addr, None)                    # a REAL cell
+        c.formula, c.value, c.need_update = f, value, need
+        return c
+    fF, fG = formula(formula_text), formula('=F1*2')
+    cF = cell(F_ADDR, fF, 'STALE-F', True)
+    cG = cell(G_ADDR, fG, 'STALE-G', True)
+    cK = cell(K_ADDR, None, value if behaviour == 'constant' else 41, False)
     named = xltypes.XLCell(F_ADDR, None)
-    model = mk('model', cells={F_ADDR: cF, G_ADDR: cG, K_ADDR: cK}, defined_names={'my_name': named}, ranges={})
-    ev = object.__new__(evaluator.Evaluator)
-    ev.model = model
-    ev.namespace = {}
-    ev.cache_count = 0
-    ev._evaluating = list(stack)
+    from xlcalculator import model as Mo
+    model = Mo.Model()                                   # the real (empty) model, filled with the opaque cells
+    model.cells, model.defined_names, model.ranges = {F_ADDR: cF, G_ADDR: cG, K_ADDR: cK}, {'my_name': named}, {}
+    ev = evaluator.Evaluator(model, {})                 # the real constructor (it only stores its arguments)
+    if stack:
+        ev._evaluating = list(stack)                    # the ghost state of C06: the path of cells being evaluated
     return ev, dict(F=cF, G=cG, K=cK, fF=fF, fG=fG, model=model), log
 
 
@@ -96,7 +106,7 @@ def run(native, addr, **kw):
         if 'formula_text' in kw2 and kw2['formula_text'] == 'SYM':
             kw2['formula_text'] = vals[1]
         ev, objs, log = make_world(native, value=value, **kw2)
-        before = list(ev._evaluating)
+        before = list(getattr(ev, '_evaluating', []))
         res, exc = None, None
         if native:
             try:
@@ -113,7 +123,7 @@ def run(native, addr, **kw):
                 exc = r.exc
             events = it.path.events[n0:]
             it.track_attrs = False
-        summary = dict(res=res, exc=exc, log=log, stack_restored=(list(ev._evaluating) == before), objs=objs, events=events,
+        summary = dict(res=res, exc=exc, log=log, stack_restored=(list(getattr(ev, '_evaluating', [])) == before), objs=objs, events=events,
                        F_value=objs['F'].value, F_need=objs['F'].need_update, K_value=objs['K'].value, G_value=objs['G'].value)
         return summary
     if native:
@@ -309,3 +319,159 @@ UNITS.append(Unit(cross_key=_key,
     cases=[Case('no function or class on the evaluation path is wrapped in functools.lru_cache / cache (a process-lifetime memo keyed on its arguments keeps every context alive)',
                 lambda: True, lambda out: out.kind == 'ret' and out.value == [])],
     call=lambda it, fn: scan_memo(), native_call=lambda fn: scan_memo()))
+
+
+# ---- histories: evaluate; change an input; evaluate again (C04: as if freshly compiled; C05: no state carried between calls) -------------
+Q_ADDR = 'Sheet1!Q9'
+
+
+def history_call(native, how, second_evaluator=False):
+    """F1's formula reads one input cell through the REAL context (EvaluatorContext.eval_cell -> Evaluator.evaluate) and
+    yields what it read.  The input is K1 (stored; also bound to the name `rate`) or Q9 (no cell at first)."""
+    target = Q_ADDR if how == 'absent' else K_ADDR
+
+    def call(it, fn, v0, v1):
+        from xlcalculator import evaluator, model as Mo, xltypes
+
+        def ast_eval(ctx):
+            if native:
+                return ctx.eval_cell(target)
+            return it.call(type(ctx).eval_cell, [ctx, target], {})
+
+        class Obj:
+            pass
+        # a REAL formula object (text, terms, tokens as the compiler makes them) whose compiled tree is the opaque collaborator
+        f = xltypes.XLFormula('=' + target.split('!')[1], 'Sheet1')
+        if native:
+            f.ast = Obj()
+            f.ast.eval = ast_eval
+        else:
+            f.ast = Stub('ast', eval=ModelFn(lambda it_, ctx: ast_eval(ctx), 'ast.eval'))
+        m = Mo.Model()
+        cF = xltypes.XLCell(F_ADDR, None)
+        cF.formula = f
+        cK = xltypes.XLCell(K_ADDR, None)
+        cK.value = v0
+        m.cells = {F_ADDR: cF, K_ADDR: cK}
+        m.defined_names = {'rate': cK}
+        ev = evaluator.Evaluator(m, {})
+        where = {'address': K_ADDR, 'name': 'rate', 'absent': Q_ADDR, 'none': None}[how]
+
+        def do(f_, *a):
+            return f_(*a) if native else it.call(getattr(evaluator.Evaluator, f_.__name__), [f_.__self__] + list(a), {})
+        r1 = do(ev.evaluate, F_ADDR)
+        if where is not None:
+            do(ev.set_cell_value, where, v1)
+        r2 = do(ev.evaluate, F_ADDR)
+        r3 = None
+        if second_evaluator:
+            ev2 = evaluator.Evaluator(m, {})
+            r3 = do(ev2.evaluate, F_ADDR)
+        stored = m.cells[target].value if target in m.cells else None
+        return dict(r1=r1, r2=r2, r3=r3, stored=stored, F_value=m.cells[F_ADDR].value)
+    if native:
+        return lambda fn, *a: call(None, fn, *a)
+    return call
+
+
+def _as_excel(r, v):
+    """r is the Excel value of the native value v"""
+    t = T()
+    k = S.lift(v).k if is_sym(v) else ('bool' if isinstance(v, bool) else 'int' if isinstance(v, int) else 'real' if isinstance(v, float) else 'str')
+    cls = {'int': t.Number, 'real': t.Number, 'str': t.Text, 'bool': t.Boolean}[k]
+    if not isinstance(r, cls):
+        return False
+    return spec.eq(r.value, v)
+
+
+def history_ens(how, second):
+    def ens(v0, v1, out):
+        if out.kind != 'ret':
+            return False
+        s = out.value
+        first = isinstance(s['r1'], T().Blank) if how == 'absent' else _as_excel(s['r1'], v0)
+        now = v0 if how == 'none' else v1
+        conj = [first, _as_excel(s['r2'], now)]
+        if second:
+            conj.append(_as_excel(s['r3'], now))
+        return And(*conj)
+    return ens
+
+
+def _hkey(s):
+    return repr((s['r1'], s['r2'], s['r3'])) if isinstance(s, dict) else repr(s)
+
+
+for _how, _second, _prop in (('address', False, 'C04'), ('name', False, 'C04'), ('absent', False, 'C04'), ('none', True, 'C05'), ('absent', True, 'C05'),
+                             ('name', True, 'C05'), ('address', True, 'C05')):
+    UNITS.append(Unit(cross_key=_hkey,
+        id=f'{_prop}/evaluator.Evaluator/history[evaluate; set input by {_how}; evaluate{"; a second evaluator" if _second else ""}]',
+        target='xlcalculator.evaluator:Evaluator.evaluate', prop=_prop,
+        inputs=[('v0', CONSTS), ('v1', CONSTS)], fork='star',
+        cases=[Case('after an input is changed (by address, through its defined name, or by giving a value to a cell that did not exist) a formula yields what a fresh evaluation of the current inputs yields - for every evaluator over the model',
+                    lambda *a: True, history_ens(_how, _second))],
+        call=history_call(False, _how, _second), native_call=history_call(True, _how, _second), bounded_domain_cap=80))
+
+
+# ---- Model.set_cell_value: a name stands for its cell (C04, C13) ----------------------------------------------------------------------------
+def setcell_call(native, how):
+    def call(it, fn, v0, v1):
+        from xlcalculator import model as Mo, xltypes
+        import copy as _copy
+        m = Mo.Model()
+        cK = xltypes.XLCell(K_ADDR, None)
+        cK.value = v0
+        other = xltypes.XLCell(G_ADDR, None)
+        other.value = 'UNTOUCHED'
+        # the name's own XLCell is a DISTINCT object from cells[K1], as in an extracted (deep-copied) or restored model
+        named = xltypes.XLCell(K_ADDR, None)
+        named.value = v0
+        m.cells = {K_ADDR: cK, G_ADDR: other}
+        m.defined_names = {'rate': named if how.endswith('copy') else cK}
+        where = {'address': K_ADDR, 'name': 'rate', 'name-copy': 'rate', 'absent': Q_ADDR, 'cell-object': cK}[how]
+        if native:
+            m.set_cell_value(where, v1)
+            writes = None
+        else:
+            it.track_attrs = True
+            n0 = len(it.path.events)
+            it.call(Mo.Model.set_cell_value, [m, where, v1], {})
+            writes = [(('K' if o is cK else 'other' if o is other else 'named' if o is named else 'model' if o is m else type(o).__name__), a)
+                      for kind, o, a, v in it.path.events[n0:] if kind == 'write']
+            it.track_attrs = False
+        target = Q_ADDR if how == 'absent' else K_ADDR
+        return dict(value=m.cells[target].value if target in m.cells else 'NO-CELL', other=other.value, K=cK.value, writes=writes, keys=sorted(m.cells))
+    if native:
+        return lambda fn, *a: call(None, fn, *a)
+    return call
+
+
+def setcell_ens(how):
+    def ens(v0, v1, out):
+        if out.kind != 'ret':
+            return False
+        s = out.value
+        if s['other'] != 'UNTOUCHED':
+            return False
+        if how == 'absent':
+            if s['keys'] != sorted([K_ADDR, G_ADDR, Q_ADDR]) or not (s['K'] is v0 or s['K'] == v0):
+                return False
+        elif s['keys'] != sorted([K_ADDR, G_ADDR]):
+            return False
+        if s['writes'] is not None and any(w[0] in ('other', 'model') for w in s['writes']):
+            return False                                   # frame: no other cell, no table of the model is written
+        val = s['value']
+        if val is v1:
+            return True
+        return spec.eq(val, v1) if (is_sym(val) or is_sym(v1)) else (type(val) is type(v1) and val == v1)
+    return ens
+
+
+for _prop in ('C04', 'C13'):
+    for _how in ('address', 'name', 'name-copy', 'absent'):
+        UNITS.append(Unit(cross_key=lambda s: repr((s['value'], s['keys'])) if isinstance(s, dict) else repr(s),
+            id=f'{_prop}/model.Model.set_cell_value[{_how}]', target='xlcalculator.model:Model.set_cell_value', prop=_prop,
+            inputs=[('v0', CONSTS), ('v1', CONSTS)], fork='star',
+            cases=[Case('afterwards the cell AT the address (the address a name stands for) holds the value - also when the name keeps its own copy of the cell, as in an extracted or restored model; nothing else changes',
+                        lambda *a: True, setcell_ens(_how))],
+            call=setcell_call(False, _how), native_call=setcell_call(True, _how), bounded_domain_cap=60))
